@@ -6,7 +6,9 @@
 //!   <flavour> <cap> <runs> <seed> [trace] [pct|rand] [results] [oneline] | P: ops | P: ops | C: ops ...
 //!   (`pct` / `rand` force that policy for every run instead of the 2:1 mix; `results` adds a
 //!    `results t0=[..] t1=[..]` line (API results of the traced run) right after the result line;
-//!    `oneline` joins all output lines of the scenario with ` ;; ` into one line)
+//!    `oneline` joins all output lines of the scenario with ` ;; ` into one line;
+//!    `wide`: payload ids are (producer index + 1) * 1000 + seq instead of * 100, for programs
+//!    with up to 999 sends per producer (at most 3 producers: ids stay below MAXID))
 //! thread ops: s (send) ts (try_send) r (recv) tr (try_recv) rt (recv_timeout 20us)
 //!             D (drain: recv until Disconnected)  y (yield)
 //! stdout per scenario:
@@ -16,12 +18,16 @@
 //! the result line, one event per line, terminated by `end-trace`.
 use sched::{format_rec, run, Namer, Outcome, Policy};
 use std::io::{self, BufRead, Write};
-use std::sync::atomic::{AtomicU32, Ordering};
+use std::sync::atomic::{AtomicU32, AtomicU64, Ordering};
 use std::sync::{Arc, Mutex};
 use std::time::Duration;
 
 const MAXID: usize = 4096;
 static DROPS: [AtomicU32; MAXID] = [const { AtomicU32::new(0) }; MAXID];
+
+/// logical clock of the occupancy monitor (C03, flavour mpscb): harness code runs while its thread
+/// holds the scheduler's baton, so these stamps are totally ordered consistently with the run
+static CLOCK: AtomicU64 = AtomicU64::new(0);
 
 #[derive(Debug)]
 struct P(u64);
@@ -206,6 +212,7 @@ struct Scenario {
   force: Option<bool>,
   show_results: bool,
   oneline: bool,
+  idbase: u64,
   threads: Vec<ThreadSpec>,
 }
 
@@ -229,6 +236,7 @@ fn parse(line: &str) -> Scenario {
     force: if head[4.min(head.len())..].contains(&"pct") { Some(true) } else if head[4.min(head.len())..].contains(&"rand") { Some(false) } else { None },
     show_results: head[4.min(head.len())..].contains(&"results"),
     oneline: head[4.min(head.len())..].contains(&"oneline"),
+    idbase: if head[4.min(head.len())..].contains(&"wide") { 1000 } else { 100 },
     threads,
   }
 }
@@ -241,6 +249,9 @@ struct OneRun {
   parks: usize,
   choices: Vec<usize>,
   trace: Vec<sched::Rec>,
+  /// (stamp, +1) at the return of every successful send; (stamp taken BEFORE the call, -k) for every
+  /// receive call that returned k values
+  occ: Vec<(u64, i64)>,
 }
 
 fn run_once(sc: &Scenario, policy: Policy, record: bool) -> OneRun {
@@ -270,27 +281,38 @@ fn run_once(sc: &Scenario, policy: Policy, record: bool) -> OneRun {
     drop(rx0);
   }
   let results: Arc<Mutex<Vec<Vec<Res>>>> = Arc::new(Mutex::new(vec![Vec::new(); sc.threads.len()]));
+  let occ: Arc<Mutex<Vec<(u64, i64)>>> = Arc::new(Mutex::new(Vec::new()));
   let mut bodies: Vec<Box<dyn FnOnce() + Send>> = Vec::new();
   let mut pi = 0u64;
   for (ti, th) in sc.threads.iter().enumerate() {
     let ops = th.ops.clone();
     let results = results.clone();
+    let occ = occ.clone();
     if th.producer {
       let mut tx = txs.pop().unwrap();
-      let base = (pi + 1) * 100;
+      let base = (pi + 1) * sc.idbase;
       pi += 1;
       bodies.push(Box::new(move || {
         let mut seq = 0u64;
-        let mut out = Vec::new();
+        let mut out: Vec<Res> = Vec::new();
+        let sent = |r: &Res| {
+          if matches!(r, Res::SendOk(_)) {
+            occ.lock().unwrap().push((CLOCK.fetch_add(1, Ordering::SeqCst), 1));
+          }
+        };
         for op in &ops {
           match op.as_str() {
             "s" => {
               seq += 1;
-              out.push(tx.send(P(base + seq)));
+              let r = tx.send(P(base + seq));
+              sent(&r);
+              out.push(r);
             }
             "ts" => {
               seq += 1;
-              out.push(tx.try_send(P(base + seq)));
+              let r = tx.try_send(P(base + seq));
+              sent(&r);
+              out.push(r);
             }
             "y" => std::thread::yield_now(),
             o => panic!("bad producer op {o}"),
@@ -303,13 +325,30 @@ fn run_once(sc: &Scenario, policy: Policy, record: bool) -> OneRun {
       let mut rx = rxs.pop().unwrap();
       bodies.push(Box::new(move || {
         let mut out = Vec::new();
+        let stamp = || CLOCK.fetch_add(1, Ordering::SeqCst);
+        let took = |st: u64, r: Res| {
+          if matches!(r, Res::Val(_)) {
+            occ.lock().unwrap().push((st, -1));
+          }
+          r
+        };
         for op in &ops {
           match op.as_str() {
-            "r" => out.push(rx.recv()),
-            "tr" => out.push(rx.try_recv()),
-            "rt" => out.push(rx.recv_timeout(Duration::from_micros(20))),
+            "r" => {
+              let st = stamp();
+              out.push(took(st, rx.recv()))
+            }
+            "tr" => {
+              let st = stamp();
+              out.push(took(st, rx.try_recv()))
+            }
+            "rt" => {
+              let st = stamp();
+              out.push(took(st, rx.recv_timeout(Duration::from_micros(20))))
+            }
             "D" => loop {
-              let r = rx.recv();
+              let st = stamp();
+              let r = took(st, rx.recv());
               let stop = r == Res::Disc;
               out.push(r);
               if stop {
@@ -329,7 +368,9 @@ fn run_once(sc: &Scenario, policy: Policy, record: bool) -> OneRun {
   }
   let rr = run(policy, 200_000, record, bodies);
   let results = results.lock().unwrap().clone();
-  OneRun { outcome: rr.outcome, results, steps: rr.steps, events: rr.trace.len(), parks: rr.parks, choices: rr.choices, trace: rr.trace }
+  let mut occ = occ.lock().unwrap().clone();
+  occ.sort();
+  OneRun { outcome: rr.outcome, results, steps: rr.steps, events: rr.trace.len(), parks: rr.parks, choices: rr.choices, trace: rr.trace, occ }
 }
 
 /// property monitors over one completed/aborted run; returns (clause, detail)
@@ -341,6 +382,17 @@ fn judge(sc: &Scenario, r: &OneRun) -> Option<(String, String)> {
     Outcome::StepLimit => return Some(("C05:step-limit".into(), "schedule exceeded 200000 steps (livelock/unbounded spin)".into())),
     Outcome::Panic(m) => return Some(("C01:panic".into(), m.clone())),
     Outcome::Completed => {}
+  }
+  // C03 (mpsc bounded): at every instant, sends that have RETURNED Ok minus values handed out by receive
+  // calls that had STARTED is a lower bound of the number of buffered values, hence must be <= cap
+  if sc.flavour == "mpscb" {
+    let mut level = 0i64;
+    for (_, d) in &r.occ {
+      level += d;
+      if level > sc.cap.max(1) as i64 {
+        return Some(("C03:occupancy".into(), format!("{level} values were accepted (send returned Ok) and not yet handed to any started receive: capacity {} exceeded", sc.cap)));
+      }
+    }
   }
   let mut sent_ok = Vec::new();
   let mut handed_back = Vec::new();
@@ -360,7 +412,7 @@ fn judge(sc: &Scenario, r: &OneRun) -> Option<(String, String)> {
             return Some(("C04:value-after-disc".into(), format!("thread {ti} received {id} after Disconnected")));
           }
           got.push(*id);
-          let prod = id / 100;
+          let prod = id / sc.idbase;
           if let Some(prev) = last_from.get(&prod) {
             if *prev >= *id {
               return Some(("C02:order".into(), format!("thread {ti} received {id} after {prev} from the same producer")));
